@@ -225,7 +225,7 @@ func readLog(data []byte, drw *dialect.ReadWriter) ([]*tlog.Entry, error) {
 
 func TestC20Logs(t *testing.T) {
 	rec := evid.New(t, "C20", "generated entry sequences (0..30 entries: v1/v2/signed frames, raw and dialect messages, times on both sides of the epoch with sub-microsecond parts, unencodable entries interleaved) written with tlog.Writer; oracles: file bytes == concatenation of BE64(floor(t,us)) ++ reference frame bytes, unencodable entries return an error and leave the file untouched, read-back equals what was written, every truncation point of the file yields exactly the complete entries before the cut and then an error, a failing io.Writer is reported; non-trivial = >=3 entries of mixed versions with a negative or sub-us timestamp, or an unencodable entry between good ones; distinct by hash of the file")
-	rec.Require("cut-in-timestamp", "cut-in-header", "cut-in-payload", "cut-in-signature", "bad-entry-between-good", "negative-time", "sub-us", "writer-fault", "dialect", "longer-than-reader-window")
+	rec.Require("cut-in-timestamp", "cut-in-header", "cut-in-payload", "cut-in-signature", "bad-entry-between-good", "negative-time", "sub-us", "writer-fault", "dialect", "longer-than-reader-window", "longer-than-3-reader-windows")
 	dpool := pool(t)
 	errBoom := errors.New("injected write error")
 	evid.Check(t, rec, evid.N(4000, 12000), func(t *rapid.T) {
@@ -236,9 +236,9 @@ func TestC20Logs(t *testing.T) {
 			drw = di.rw
 		}
 		n := rapid.IntRange(0, 30).Draw(t, "n")
-		long := rapid.IntRange(0, 5).Draw(t, "long_log") == 0 // beyond the reader's 4096-byte window
+		long := rapid.IntRange(0, 9).Draw(t, "long_log") == 0 // several times the reader's 4096-byte window
 		if long {
-			n = rapid.IntRange(30, 70).Draw(t, "n_long")
+			n = rapid.IntRange(60, 160).Draw(t, "n_long")
 		} else if rapid.IntRange(0, 3).Draw(t, "short") > 0 && n > 6 {
 			n = n % 7
 		}
@@ -255,6 +255,11 @@ func TestC20Logs(t *testing.T) {
 		pendingBad := false
 		for i := 0; i < n; i++ {
 			e := drawEntry(t, di, true)
+			if long && e.bad == "" && e.msg == nil && rapid.Bool().Draw(t, "long_payload") {
+				e.flat.Payload = gen.Bytes(t, rapid.IntRange(60, 255).Draw(t, "plen_long"), "payload_long")
+				e.lib = gen.ToLib(e.flat)
+				e.bytes = append(be64(e.t.UnixMicro()), e.flat.Bytes()...)
+			}
 			before := fw.buf.Len()
 			err := func() (err error) {
 				defer func() {
@@ -322,13 +327,13 @@ func TestC20Logs(t *testing.T) {
 		cutClasses := map[string]int{}
 		step := 1
 		if len(file) > 3000 {
-			step = 1 + len(file)/600 // long logs: a sample of cuts, always including the window boundary region
+			step = 1 + len(file)/150 // long logs: a sample of cuts, always including the window boundary region
 		}
 		for c := 0; c < len(file); c += step {
 			if step > 1 && c > 4000 && c < 4200 {
 				step = 1
 			} else if step == 1 && len(file) > 3000 && c >= 4200 {
-				step = 1 + len(file)/600
+				step = 1 + len(file)/150
 			}
 			k := 0
 			for k < len(good) && ends[k+1] <= c {
@@ -415,6 +420,9 @@ func TestC20Logs(t *testing.T) {
 		}
 		if len(file) > 4096 {
 			cls = append(cls, "longer-than-reader-window")
+		}
+		if len(file) > 3*4096 {
+			cls = append(cls, "longer-than-3-reader-windows")
 		}
 		nt := badBetween || (len(good) >= 3 && len(versions) == 2 && (negative || subus))
 		rec.Case(nt, evid.Hash(file, []byte(fmt.Sprint(n))), cls...)
